@@ -32,7 +32,7 @@ func init() {
 		Level: "exploration",
 		Rule: "type-directed random programs of the core language (arith/compare, strings, arrays, lists, hashes, def/set, let/letseq/newScope/begin, cond 1-4 arms, and/or 1-4 operands, for with plain and labelled break/continue below let/newScope/cond, fn/defn fixed and variadic, closures as arguments and results, map/apply), " +
 			"half of all sub-expressions wrapped in the host trace function; each program is run in a fresh interpreter as plain s-expression text and with whitespace/comment noise and judged against the reference evaluator (value, error-ness, ordered effect trace). " +
-			"Plus 22 programs with hand-computed expectations for what the generator does not produce: late binding of globals defined again (between and within evaluations, through closures and aliases), literals denoting fresh collections on every evaluation, arguments evaluated (effects and errors) before a wrong-arity call fails, append/concat results not sharing storage. non-trivial = distinct program text containing at least one control form (cond/and/or/for) and one function call, on which the reference terminated",
+			"Plus 27 programs with hand-computed expectations for what the generator does not produce: late binding of globals defined again (between and within evaluations, through closures and aliases), literals denoting fresh collections on every evaluation, arguments evaluated (effects and errors) before a wrong-arity call fails, append/concat results not sharing storage. non-trivial = distinct program text containing at least one control form (cond/and/or/for) and one function call, on which the reference terminated",
 		Assumptions: []string{
 			"the reference evaluator (harness/lang/ref.go) is the intended semantics; calibrated on the unchanged tree at several seeds with 0 disagreements",
 			"errors are compared by error-ness, never by message text",
